@@ -39,7 +39,7 @@ Lemma read_lines_line l : forall cur tail, ~ In 10 l ->
   read_lines (l ++ 10 :: tail) cur = (let '(ls, p) := read_lines tail [] in ((rev cur ++ l) :: ls, p)).
 Proof.
   induction l as [|c tl IH]; intros cur tail H; cbn [app read_lines].
-  - rewrite Z.eqb_refl, app_nil_r. reflexivity.
+  - rewrite Z.eqb_refl, app_nil_r. unfold rev'. rewrite <- rev_alt. reflexivity.
   - destruct (c =? 10) eqn:E; [apply Z.eqb_eq in E; subst; exfalso; apply H; left; reflexivity|].
     rewrite IH by (intros X; apply H; right; exact X). cbn [rev]. rewrite <- app_assoc. reflexivity.
 Qed.
